@@ -219,6 +219,10 @@ class C12(core.PropertyCheck):
             toml += ("\n[substitutions]\n" + f'link = ":ref:`{rng.choice(pages + ["index"])}-l{rng.randint(0, 1)}`"\n'
                      + f'page = ":doc:`/{rng.choice(pages + ["index"])}`"\n' + 'plain = "just *text*"\n')
             ctx["subs"] = ["link", "page", "plain"]
+        if kind != "corr" and rng.random() < 0.3:
+            # a page that is also built as a man page: the rendered text is part of the metadata (static_files) and has to follow
+            # every update - of the page and of what the page includes
+            toml += f'\n[manpages.tool]\nfile = "{rng.choice(pages + ["index"])}.txt"\ntitle = "Tool"\nsection = 1\n'
         src = {"index.txt": None}
         for p in pages:
             src[p + ".txt"] = None
